@@ -50,7 +50,13 @@ func merkleRun(h crypto.Hash, leaves []*leaf) string {
 		data[i] = l
 		snap[i] = append([]byte(nil), l.b...)
 	}
-	res, err := merkle.NewHasher(h).Hash(data)
+	// one long-lived Hasher per hash function, shared by the whole run (the way a caller uses it), and a
+	// fresh one: the result must depend on the leaves only, not on what the Hasher did before
+	res, err := sharedHasher(h).Hash(data)
+	res2, err2 := merkle.NewHasher(h).Hash(data)
+	if !bytes.Equal(res, res2) || (err == nil) != (err2 == nil) || (err != nil && err.Error() != err2.Error()) {
+		return fmt.Sprintf("history-dependent shared=%s/%v fresh=%s/%v", hx(res), err, hx(res2), err2)
+	}
 	for i, l := range leaves { // inputs must not be modified
 		if !bytes.Equal(snap[i], l.b) || data[i] != encoding.BinaryMarshaler(l) {
 			return "input-modified"
@@ -64,6 +70,15 @@ func merkleRun(h crypto.Hash, leaves []*leaf) string {
 		return "err other"
 	}
 	return "ok " + hx(res)
+}
+
+var sharedHashers = map[crypto.Hash]*merkle.Hasher{}
+
+func sharedHasher(h crypto.Hash) *merkle.Hasher {
+	if sharedHashers[h] == nil {
+		sharedHashers[h] = merkle.NewHasher(h)
+	}
+	return sharedHashers[h]
 }
 
 func genLeaf(seed, i, n int) []byte {
@@ -106,10 +121,12 @@ func init() {
 		return merkleRun(hashByName(a[0]), leaves)
 	}
 	execs["merkle.empty"] = func(a []string) string {
-		h := merkle.NewHasher(hashByName(a[0]))
+		h := sharedHasher(hashByName(a[0]))
 		r, err := h.Hash(nil)
-		if err != nil || !bytes.Equal(r, h.EmptyRoot()) {
-			return "empty-differs"
+		r2, err2 := h.Hash([]encoding.BinaryMarshaler{})
+		f := merkle.NewHasher(hashByName(a[0]))
+		if err != nil || err2 != nil || !bytes.Equal(r, h.EmptyRoot()) || !bytes.Equal(r2, r) || !bytes.Equal(r, f.EmptyRoot()) {
+			return "empty-differs " + hx(r) + " " + hx(r2) + " " + hx(h.EmptyRoot()) + " " + hx(f.EmptyRoot())
 		}
 		return hx(h.EmptyRoot())
 	}
@@ -165,6 +182,16 @@ func genC15(g *G) {
 				parts[j] = hx(g.r.bytes(1 + g.r.intn(100)))
 			}
 		}
-		g.emit("merkle.hash", hashes[g.r.intn(3)], strings.Join(parts, ";"))
+		hn := hashes[g.r.intn(3)]
+		g.emit("merkle.hash", hn, strings.Join(parts, ";"))
+		// histories: the empty list / EmptyRoot / a one-leaf list right after a non-empty or failed call on the same Hasher
+		switch g.r.intn(4) {
+		case 0:
+			g.emit("merkle.empty", hn)
+		case 1:
+			g.emit("merkle.hash", hn, "-")
+		case 2:
+			g.emit("merkle.hash", hn, hx(g.r.bytes(1+g.r.intn(3))))
+		}
 	}
 }
